@@ -15,7 +15,7 @@ use crate::probe::Probe;
 use crate::statejson::{self, oshape_from_spec, Params, ShapeSpec, StateSpec};
 
 pub const TITLE: &str = "A scored hard packing has no overlapping shapes anywhere in the tiling";
-pub const RULE: &str = "cases = one cell (group, shape, length, ratio, angle) with a vector of sites (x, y, orientation); every (cell, site) is one evaluation. Families: uniform (cell from a target packing fraction 0.3..1.05, sites from the bound-heavy mixture); thin (cell height b sin(t) drawn in [0.4,2.2] enclosing radii, ratio and angle from mixtures, sites within 0.02 of a cell face half of the time); contact (a thin-family state whose cell length or site coordinate is bisected until the closest image at lattice index >= 2 overlaps by 1e-6..0.3); histories (a Probe around real states run through the real optimiser with 1..12 inner loops, every score() call that returned Some is judged). Oracle: for every state with score()==Some, all image pairs with centre distance < 2R found by solving the lattice inequalities (no shell constant), separating-axis / disc-distance signed gap; violation iff some pair penetrates by more than 1e-9. Non-trivial = score is Some and (an image at lattice index >= 2 lies within 2R of a copy, or the smallest gap is below 0.05 R). Distinct by hash of the state's numbers. Also counted: rejected states whose only true overlaps are at index >= 2 (the ones a too-small shell count would accept).";
+pub const RULE: &str = "cases = one cell (group, shape, length, ratio, angle) with a vector of sites (x, y, orientation); every (cell, site) is one evaluation. Families: uniform (cell from a target packing fraction 0.3..1.05, sites from the bound-heavy mixture); thin (cell height b sin(t) drawn in [0.4,2.2] enclosing radii, ratio and angle from mixtures, sites within 0.02 of a cell face half of the time); contact (a thin-family state whose cell length or site coordinate is bisected until the closest image at lattice index >= 2 overlaps by 1.6e-9..0.3); histories (a Probe around real states run through the real optimiser with 1..12 inner loops, every score() call that returned Some is judged). Oracle: for every state with score()==Some, all image pairs with centre distance < 2R found by solving the lattice inequalities (no shell constant), separating-axis / disc-distance signed gap; violation iff some pair penetrates by more than 1e-9. Non-trivial = score is Some and (an image at lattice index >= 2 lies within 2R of a copy, or the smallest gap is below 0.05 R). Distinct by hash of the state's numbers. Also counted: rejected states whose only true overlaps are at index >= 2 (the ones a too-small shell count would accept).";
 
 pub fn assumptions() -> Vec<&'static str> {
     vec![
@@ -248,7 +248,8 @@ pub struct ContactCase {
 }
 
 fn contact_strat() -> BoxedStrategy<ContactCase> {
-    (thin_strat(1), 0u8..4, -6.0..-0.5f64).prop_map(|(base, var, delta_exp)| ContactCase { base, var, delta_exp }).boxed()
+    // planted penetration depths from just above the 1e-9 tolerance up to 0.3
+    (thin_strat(1), 0u8..4, prop_oneof![2 => -6.0..-0.5f64, 1 => -8.8..-6.0f64]).prop_map(|(base, var, delta_exp)| ContactCase { base, var, delta_exp }).boxed()
 }
 
 fn far_gap(os: &OShape, group: usize, p: &Params) -> f64 {
